@@ -114,10 +114,35 @@ def r2_pagination(ctx):
     bleft = deref_at(bl.node, brk[0].test.left) if len(brk) == 1 and isinstance(brk[0].test, ast.Compare) else None
     okb = len(brk) == 1 and isinstance(brk[0].test, ast.Compare) and isinstance(brk[0].test.ops[0], ast.Is) and isinstance(bleft, ast.Subscript) and isinstance(bleft.slice, ast.Constant) and bleft.slice.value == 'nextFileName' and isinstance(brk[0].test.comparators[0], ast.Constant) and brk[0].test.comparators[0].value is None
     all_breaks = [n for n in walk_local(lp) if isinstance(n, (ast.Break, ast.Return))]
+    # every name of every page is reported: no iteration of the page's file loop can pass over the yield
+    bcfg = cfg_of(bl.node)
+    for y in [n for n in walk_local(lp) if isinstance(n, ast.Yield)]:
+        yst = enclosing_stmt(y)
+        inner = [a for a in ancestors(y) if isinstance(a, (ast.For, ast.AsyncFor)) and any(x is a for x in ast.walk(lp))]
+        if not inner:
+            continue
+        il = inner[0]
+        ynodes = bcfg.nodes_of(yst, 'stmt')
+        heads = bcfg.nodes_of(il, 'loop')
+        skip = None
+        for t in bcfg.nodes_of(il, 'true'):
+            skip = skip or bcfg.path(t, heads, avoid=ynodes, kinds=('normal',))
+        ctx.check(
+            skip is None,
+            'C13.R2',
+            f'{func_label(bl)}|b2-yields-every-name',
+            loc(bl, yst),
+            'B2 listing: every fileName of every page is yielded (no iteration of the file loop passes over the yield)',
+            'B2 listing: a listed name can be passed over without being reported (a condition / `continue` in the file loop): live objects can be missing from the listing (e.g. one name per page boundary)',
+        )
     ctx.check(okb and len(all_breaks) == 1, 'C13.R2', f'{func_label(bl)}|b2-terminates-on-marker', loc(bl, lp), 'B2 listing: the loop ends exactly when nextFileName is None', 'B2 listing: the loop can end on another condition than nextFileName is None (e.g. an empty page): later files are not listed')
     # yields precede the break test
     ys = [enclosing_stmt(y) for y in walk_local(lp) if isinstance(y, ast.Yield)]
-    ctx.check(bool(ys) and brk and all(y.lineno < brk[0].lineno for y in ys), 'C13.R2', f'{func_label(bl)}|b2-yields-before-continuing', loc(bl, lp), "B2 listing: the page's names are yielded before the continuation is followed", "B2 listing: the last page's names are not yielded")
+    # on the CFG: no path from the start of an iteration to the end-of-listing test avoids the loop that yields the page's names
+    yloops = [a for y in walk_local(lp) if isinstance(y, ast.Yield) for a in ancestors(y) if isinstance(a, (ast.For, ast.AsyncFor)) and any(x is a for x in ast.walk(lp))]
+    yheads = [n for l_ in yloops for n in bcfg.nodes_of(l_, 'loop')]
+    before_ok = bool(ys) and bool(brk) and bool(yheads) and all(bcfg.path(t, bcfg.nodes_of(brk[0], 'test'), avoid=yheads, kinds=('normal',)) is None for t in bcfg.nodes_of(lp, 'true'))
+    ctx.check(before_ok, 'C13.R2', f'{func_label(bl)}|b2-yields-before-continuing', loc(bl, lp), "B2 listing: the page's names are yielded before the continuation is followed", "B2 listing: the last page's names are not yielded")
 
 
 def _loop_carried_kw(fn, loop, call):
@@ -462,7 +487,57 @@ def r6_temp_invisible(ctx):
     r5_temp_invisible(_P(ctx))
 
 
+def r8_no_shared_mutable_state(ctx, rule='C13.R8'):
+    """adapters keep no state between calls in module-level containers: a dict / list / set literal bound at module level
+    of a backend module is never modified by a function (request parameters would leak from one call into the next,
+    and between client objects of one process)"""
+    corpus = ctx.corpus
+    MUT = {'update', 'append', 'add', 'setdefault', 'pop', 'popitem', 'clear', 'extend', 'insert', 'remove', 'discard'}
+    n = 0
+    for short in ('local', 's3c', 's3', 'b2', 'base'):
+        m = corpus.module(short)
+        consts = {}
+        for st in m.tree.body:
+            if isinstance(st, ast.Assign) and len(st.targets) == 1 and isinstance(st.targets[0], ast.Name) and isinstance(st.value, (ast.Dict, ast.List, ast.Set)):
+                consts[st.targets[0].id] = st
+        for name, st in consts.items():
+            n += 1
+            aliases = {name}
+            bad = None
+            for f in m.all_functions:
+                local_alias = set()
+                for x in walk_local(f.node):
+                    # q = CONST  (an alias, not a copy)
+                    if isinstance(x, ast.Assign) and isinstance(x.value, ast.Name) and x.value.id in aliases:
+                        local_alias |= {t.id for t in x.targets if isinstance(t, ast.Name)}
+                names = aliases | local_alias
+                for x in walk_local(f.node):
+                    if isinstance(x, ast.Subscript) and isinstance(x.ctx, (ast.Store, ast.Del)) and isinstance(x.value, ast.Name) and x.value.id in names:
+                        bad = bad or (f, x)
+                    if isinstance(x, ast.Call) and isinstance(x.func, ast.Attribute) and x.func.attr in MUT and isinstance(x.func.value, ast.Name) and x.func.value.id in names:
+                        bad = bad or (f, x)
+                    if isinstance(x, ast.AugAssign) and isinstance(x.target, ast.Name) and x.target.id in names:
+                        bad = bad or (f, x)
+            ctx.check(
+                bad is None,
+                rule,
+                f'{m.rel}|module-constant-not-mutated:{name}',
+                f'{m.rel}:{st.lineno}' if bad is None else loc(bad[0], bad[1]),
+                f'{m.rel}: module-level container `{name}` is only read',
+                f'{m.rel}: `{name}` is a module-level container that `{bad[0].qual if bad else ""}` modifies in place (`{src(enclosing_stmt(bad[1]), 50) if bad else ""}`): values of one call (prefix, continuation token, headers ...) leak into later calls and into other client objects',
+            )
+    ctx.count('module_level_containers_in_backends', n)
+
+
 def run(ctx):
+    from ..report import Relabel
+    from .c03 import r4_local_atomic
+    from .c12 import r2_rewind
+
+    # "an upload stores exactly the bytes given": the publish discipline of the file backend and the rewind-before-retry rule
+    r4_local_atomic(Relabel(ctx, 'C13.R6'))
+    r2_rewind(Relabel(ctx, 'C13.R6'), rule='C13.R6')
+    r8_no_shared_mutable_state(ctx)
     r7_exists_answer(ctx)
     r6_temp_invisible(ctx)
     r1_conformance(ctx)
